@@ -125,6 +125,10 @@ pub fn nested_mismatch<S: Source>(s: &mut S, variant: usize) {
     let a = match variant {
         0 => arr![arr![v[0], v[1]], arr![v[2]]],
         1 => arr![arr![arr![v[0]], arr![v[1]]], arr![arr![v[2], v[3]], arr![v[4]]]],
+        // [2] next to [2,1]: one shape is a prefix of the other and the element counts agree
+        3 => arr![arr![v[0], v[1]], arr![arr![v[2]], arr![v[3]]]],
+        // [2,1] next to [2]
+        4 => arr![arr![arr![v[0]], arr![v[1]]], arr![v[2], v[3]]],
         _ => arr![arr![v[0], v[1]], arr![arr![v[2], v[3]]]],
     };
     forget(a);
